@@ -1,6 +1,22 @@
-"""C01 — Mutex: exclusion, visibility, no lost wake-up, try_lock; every schedule."""
-import json
-import os
+"""C01 — Mutex: exclusion, visibility, no lost wake-up, try_lock; every schedule.
+
+How the model's parameters are obtained (tie T) — nothing here depends on the *position* of a call site:
+ * memory orderings: the scheduler shim logs, with every atomic operation, the ordering the running code passed.
+   The Lean driver replays each RMW with exactly that ordering (`drv_c01`: the event updates the ordering bit
+   `step` consults for it), so a guard obtained through a too-weak RMW shows as `raced=true` on a concrete
+   schedule.  The classes (operation, role, ordering) observed — role `acquire` = the RMW that returned the guard,
+   `release` = the first RMW of the guard's drop — are written to Gen/MutexObs.lean, and Props/C01.lean proves
+   `genCfg.Good` from them *and* from the static site table (Gen/SyncSites.lean, roles derived from what each RMW
+   does to the word) whenever that table was understood;
+ * spin budget: taken from the traces (a first spin that ends although every load returned "locked" has
+   budget+1 loads), cross-checked with the statically resolved constant; it only decides which traces the model
+   accepts, no oracle depends on it;
+ * futex key kind: the operation words the real rusl::futex passes to the (scripted) kernel, cross-checked with
+   the source text when understood.
+The shared engine `run_sync` is also used by checks/c02.py."""
+import collections
+import concurrent.futures as cf
+import re
 
 from . import common as C
 from . import sync_extract
@@ -8,25 +24,8 @@ from . import sync_extract
 ACQ = {"acq", "acqrel", "sc"}
 REL = {"rel", "acqrel", "sc"}
 ORDMAP = {"relaxed": "rlx", "acquire": "acq", "release": "rel", "acqrel": "acqrel", "seqcst": "sc"}
-
-
-def cfg_from_table(t):
-    """the model configuration (5 ordering bits + spin count) from the regenerated site table"""
-    m = t["tables"]["mutex"]
-
-    def o(k, j=0):
-        try:
-            return ORDMAP[m[k]["ords"][j]]
-        except Exception:
-            return "rlx"
-    return {
-        "tryAcq": o(0) in ACQ, "lockAcq": o(1) in ACQ, "cas2Acq": o(2) in ACQ, "swap2Acq": o(3) in ACQ,
-        "unlockRel": o(6) in REL, "spin": max(0, int(t["extra"]["mutex_spin"])),
-    }
-
-
-def cfg_bits(c):
-    return "%d %d %d %d %d %d" % (c["lockAcq"], c["tryAcq"], c["cas2Acq"], c["swap2Acq"], c["unlockRel"], c["spin"])
+MASK30 = (1 << 30) - 1
+WW = 1 << 31
 
 
 def gen_programs(r, which):
@@ -89,19 +88,249 @@ def shape_of(trace):
     return tuple(sorted(s))
 
 
-def observed_orderings(traces):
-    obs = {}
+def observed_by_op(traces):
+    """{operation+location: set of orderings the running code passed}, plus the flag words given to futex_wait"""
+    obs, flags = {}, set()
     for t in traces:
         for ev in t.split(" ; "):
             w = ev.split()
-            if len(w) == 5 and (w[1].startswith(("cas", "swap", "load", "fadd", "fsub", "store"))):
-                key = w[1] + (":" + w[3] if w[1].startswith(("swap", "cas")) and w[3] != "-" else "")
-                obs.setdefault(key, set()).add(w[2])
-    return obs
+            if len(w) != 5:
+                continue
+            if re.match(r"(cas|casw|swap|load|fadd|fsub|store)\d+$", w[1]):
+                obs.setdefault(w[1], set()).add(w[2])
+            elif w[1].startswith("fwait") and w[2].isdigit():
+                flags.add(int(w[2]))
+    return obs, flags
+
+
+def infer_spin_mutex(traces):
+    """lock(): failed CAS, then spin() — a run of loads that all returned 1 (locked, uncontended) and is followed
+    by the swap to 2 ended because the budget ran out: it has budget+1 loads"""
+    counts = collections.Counter()
+    for t in traces:
+        per = {}
+        for ev in t.split(" ; "):
+            w = ev.split()
+            if len(w) != 5 or w[0] == "-":
+                continue
+            tid, op = w[0], w[1]
+            st = per.get(tid)
+            if op == "cas0" and w[4].startswith("fail"):
+                per[tid] = 0
+            elif op == "load0" and st is not None and w[4] == "1":
+                per[tid] = st + 1
+            elif op == "swap0" and w[3] == "2" and st:
+                counts[st - 1] += 1
+                per[tid] = None
+            else:
+                per[tid] = None
+    return counts
+
+
+def infer_spin_rw(traces):
+    """write(): failed fast CAS, then spin_until — loads that all say "locked, no writer waiting" followed by the
+    strong CAS that sets a waiting bit: budget+1 loads.  read(): the same after its fast path, with loads that all
+    say "write-locked, nobody waiting"."""
+    counts = collections.Counter()
+    for t in traces:
+        per = {}
+        for ev in t.split(" ; "):
+            w = ev.split()
+            if len(w) != 5 or w[0] == "-":
+                continue
+            tid, op = w[0], w[1]
+            st = per.get(tid)
+            if op in ("call-write", "call-read"):
+                per[tid] = (op, None)
+            elif st and st[0] == "call-write" and st[1] is None and op == "casw0" and not w[4].startswith("ok"):
+                per[tid] = ("w", 0)
+            elif st and st[0] == "call-read" and st[1] is None and op == "load0":
+                v = int(w[4])
+                lockable = (v & MASK30) < MASK30 - 1 and v >> 30 == 0
+                per[tid] = ("call-read", "loaded") if lockable else ("r", 0)
+            elif st and st == ("call-read", "loaded") and op == "casw0" and not w[4].startswith("ok"):
+                per[tid] = ("r", 0)
+            elif st and st[0] in ("w", "r") and op == "load0":
+                v = int(w[4])
+                keep = ((v & MASK30) != 0 and not v & WW) if st[0] == "w" else (v == MASK30)
+                per[tid] = (st[0], st[1] + 1) if keep else None
+            elif st and st[0] in ("w", "r") and op == "cas0" and st[1]:
+                counts[st[1] - 1] += 1
+                per[tid] = None
+            else:
+                per[tid] = None
+    return counts
+
+
+def explore(ctx, which, exe, cases, what):
+    """run the cases through the harness (16 processes); report livelocks / harness deaths; return {case: line}"""
+    chunks = [cases[i::16] for i in range(16)]
+    outs = {}
+
+    def work(chunk):
+        rc, o, e = C.run_filter([exe], chunk, timeout=3000)
+        return chunk, o, rc
+
+    with cf.ThreadPoolExecutor(16) as ex:
+        for chunk, o, rc in ex.map(work, chunks):
+            if len(o) != len(chunk):
+                if o and o[-1].startswith("livelock"):
+                    idx = len(o) - 1
+                    ctx.violation({"kind": "livelock"},
+                                  {"case": chunk[idx], "verdict": "livelock: a thread never returned from %s although every holder released (threads free-running for 20 s)" % what,
+                                   "trace_tail": o[-1].split(" :: ", 1)[-1].split(" ; ")[-60:], "how_to_replay": "echo '%s' | %s" % (chunk[idx], exe)})
+                    o = o[:-1]
+                else:
+                    idx = len(o)
+                    ctx.violation({"kind": "harness-died", "case": chunk[idx] if idx < len(chunk) else "?"},
+                                  {"case": chunk[idx] if idx < len(chunk) else None, "rc": rc})
+            for c, l in zip(chunk, o):
+                outs[c] = l
+    return outs
+
+
+def futex_probe(exe, flag_words):
+    """operation words of the real rusl::futex::{futex_wait, futex_wake} → (wait_private, wake_private, detail)"""
+    words = sorted(flag_words) or [128]
+    rc, o, e = C.run_filter([exe], ["futexops %d" % f for f in words], timeout=120)
+    res = []
+    for f, line in zip(words, o):
+        m = re.match(r"futexops wait=(\d+) wake=(\d+)", line)
+        if not m:
+            return None, None, {"probe_failed": line, "flags": f}
+        res.append((f, int(m.group(1)), int(m.group(2))))
+    if len(res) != len(words):
+        return None, None, {"probe_failed": "no output", "rc": rc}
+    waits = {bool(r[1] & 128) for r in res}
+    wakes = {bool(r[2] & 128) for r in res}
+    if len(waits) != 1 or len(wakes) != 1:
+        return None, None, {"probe_mixed": res}
+    return waits.pop(), wakes.pop(), {"flags_passed_by_futex_wait_fast": words,
+                                      "op_words": [{"flags": f, "wait_op": a, "wake_op": b} for f, a, b in res]}
+
+
+def run_sync(ctx, P):
+    which = P["which"]
+    table = sync_extract.generate()
+    ctx.trusted.append("checks/sync_extract.py (translator of atomic call sites into roles/orderings; cross-checked each run against the orderings the running code actually passes to the shimmed atomics; when it does not understand the source the configuration rests on the observation)")
+    tie = {"static_shape": table["shape"]}
+    ctx.extra["tie_T"] = tie
+    runs = []       # (case, verdict, trace)
+    exes = {}
+    # the exploration runs on a debug build (overflow checks, debug_assert!) and on a release build (neither)
+    for release in (False, True):
+        exe, err = C.cargo_build(ctx, "c01", release=release)
+        if exe is None:
+            ctx.broken.append({"harness_build_failed": err})
+            ctx.violation({"kind": "harness-build-failed"}, {"error": err}, no_input=True)
+            return
+        exes[release] = exe
+        cases = P["cases"](ctx, release)
+        outs = explore(ctx, which, exe, cases, P["what"])
+        ctx.evaluations += len(outs)
+        for c in cases:
+            if c not in outs:
+                continue
+            verdict, viol, lost, trace = split_out(outs[c])
+            ctx.hist("verdicts", verdict)
+            ctx.count(shape_of(trace))
+            if viol != "-" or lost or verdict == "deadlock":
+                kind = "panic" if "panic" in viol else "exclusion" if "exclusion" in viol else (P["trykind"] if "try:" in viol else ("deadlock" if verdict == "deadlock" else "lost-update"))
+                ctx.violation({"kind": kind}, {"case": c, "verdict": verdict, "oracle": viol, "lost_update": lost,
+                                                "trace": trace.split(" ; ")[-P["tail"]:],
+                                                "how_to_replay": "echo '%s' | %s" % (c, exe)})
+            runs.append((c, verdict, trace))
+        for c in cases[:3]:
+            if c in outs:
+                ctx.sample({"case": c, "result": outs[c][:400]})
+    traces = [t for _, _, t in runs]
+
+    # ---- what the running code did: orderings per role, spin budget, futex key kind
+    rows = sync_extract.roles_observed(traces)
+    obs, flag_words = observed_by_op(traces)
+    ctx.extra["observed_orderings"] = {k: sorted(v) for k, v in sorted(obs.items())}
+    tie["observed_roles"] = sorted("%s as %s: %s" % r for r in rows)
+    static_spin = int(table["extra"][P["spin_key"]])
+    counts = P["infer_spin"](traces)
+    spin_obs = counts.most_common(1)[0][0] if counts else None
+    tie["spin_budget"] = {"static": static_spin if static_spin >= 0 else "not understood", "observed": spin_obs,
+                          "observed_runs": dict(counts.most_common(4))}
+    if spin_obs is not None:
+        spin = spin_obs
+        if static_spin >= 0 and static_spin != spin_obs:
+            tie["spin_budget"]["note"] = "static and observed budgets differ; the observed one is used (it only decides which traces the model accepts)"
+    elif static_spin >= 0:
+        spin = static_spin
+        tie["spin_budget"]["note"] = "no schedule spun the budget out; the statically resolved budget is used"
+    else:
+        ctx.broken.append({"spin_budget": "neither resolvable from the source nor observable in the traces"})
+        ctx.violation({"kind": "spin-budget-unknown"}, {"note": "the spin budget could neither be resolved from the source nor observed in any trace; the model cannot be instantiated"}, no_input=True)
+        return
+    tie["spin_budget"]["used"] = spin
+    wait_p, wake_p, detail = futex_probe(exes[False], flag_words)
+    tie["futex_key"] = {"static": {"understood": table["key_understood"], "wait_private": table["wait_private"], "wake_private": table["wake_private"]},
+                        "observed": detail}
+    if wait_p is None:
+        ctx.broken.append({"futex_probe": detail})
+        ctx.violation({"kind": "futex-probe-failed"}, {"detail": detail}, no_input=True)
+        wait_p, wake_p = table["wait_private"], not table["wait_private"]  # makes futexKeyOk fail
+    sync_extract.write_observed(P["obs_module"], rows, spin, wait_p, wake_p)
+    understood, mism, notes = sync_extract.static_vs_observed(table["tables"][P["table"]], P["lock_locs"], obs)
+    tie["static_orderings_understood"] = understood
+    if notes:
+        tie["static_not_understood_because"] = notes
+    tie["configuration_source"] = ("static site table (roles, all orderings literal) and run-time observation, which agree" if understood and not mism
+                                   else "run-time observation only: the static table has orderings that are not literals/aliases" if not understood
+                                   else "static table and observation DISAGREE")
+
+    # ---- the theorems, with the obligations of tie T over the regenerated Gen files
+    ok = C.lean_prove(ctx, P["module"], drivers=[P["driver"]], more_props=P.get("more_props", ()))
+
+    # ---- tie C: every implementation trace must be a behaviour of the model, replayed with the orderings it carried
+    drv_lines = ["%s %d : %s :: %s" % (which, spin, c.split(" : ", 1)[1], t) for c, _, t in runs]
+    rc, mo, err = C.run_filter([C.driver_path(P["driver"])], drv_lines, timeout=3000)
+    if len(mo) != len(drv_lines):
+        ctx.violation({"kind": "driver-failed"}, {"rc": rc, "stderr": err[-400:]}, no_input=True)
+        return
+    rejected, raced = [], []
+    for (c, verdict, _), line, m in zip(runs, drv_lines, mo):
+        if m.startswith("reject") or m == "bad-op":
+            rejected.append((c, m))
+        elif "raced=true" in m:
+            raced.append((c, m, line))
+        elif verdict == "complete" and "finished=true" not in m:
+            rejected.append((c, "complete run but model not finished: " + m))
+        elif verdict == "deadlock" and not m.startswith("accept-deadlock"):
+            rejected.append((c, m))
+    ctx.extra["traces_validated_against_impl"] = len(drv_lines) - len(rejected)
+    ctx.extra["model_rejections"] = len(rejected)
+    for c, m, line in raced[:3]:
+        ctx.violation({"kind": "data-race-in-model"},
+                      {"case": c, "model": m, "note": "replayed with the memory orderings the running code passed to each atomic operation, the release/acquire view model exhibits a race on the guarded data along this schedule of the real code (not observable on x86 hardware)",
+                       "orderings_observed": tie["observed_roles"], "driver_line": line[:3000]})
+    if mism:
+        ctx.broken.append({"translator_mismatch": mism})
+        ctx.violation({"kind": "translator-mismatch"}, {"mismatch": mism, "note": "the running code passes an ordering that no static site of that operation kind has: the static extraction misreads the source"}, no_input=True)
+    if rejected and not ctx.violations:
+        c, m = rejected[0]
+        ctx.broken.append({"correspondence": P["corr"], "first_rejection": {"case": c, "model": m}, "count": len(rejected)})
+        ctx.violation({"kind": "model-rejects-trace"}, {"broken_correspondence": P["corr"], "case": c, "model": m, "count": len(rejected),
+                                                         "note": "no oracle (exclusion, try, deadlock, lost update, livelock) failed on any explored schedule"}, no_input=True)
+    if not ok and not ctx.violations:
+        ctx.violation({"kind": "proof-broken"}, {"broken": ctx.broken, "tie_T": tie,
+                                                 "note": "%s no longer checks against the regenerated Gen/SyncSites.lean + Gen/%s.lean (gen_shape_ok / gen_cfg_good: every acquiring RMW Acquire, every releasing RMW Release, no store, same futex key kind) and no explored schedule fails an oracle" % (P["module"], P["obs_module"])}, no_input=True)
+
+
+def mutex_cases(ctx, release):
+    n = (6000 if ctx.tier == "quick" else 120000) // (3 if release else 1)
+    cases = gen_cases(ctx, "mutex", n)
+    # directed cases that force parking: a starved holder with many contenders
+    for k in range(60 if ctx.tier == "quick" else 600):
+        cases.append("mutex %d 12000 %d %d 0 %d : l2 l1 | l1 l0 | l1 | t0 l1" % (1000 + k, [0, 50, 90][k % 3], [0, 5][k % 2], 1 + k % 15))
+    return cases
 
 
 def run(ctx):
-    which = "mutex"
     ctx.rule = ("cases = (thread count 2..4, per-thread programs of 1..3 lock/try_lock transactions with 0..2 guarded writes, "
                 "scheduler policy: stickiness, spurious-wake rate, holder-starvation mask, seed) drawn from VERIF_SEED; each runs the real "
                 "mutex.rs under the deterministic scheduler; distinct_nontrivial = distinct sets of protocol paths taken "
@@ -112,101 +341,8 @@ def run(ctx):
         "the implementation is explored under sequentially consistent interleavings only (x86 run under a baton scheduler); stale relaxed loads are covered by the theorems, which allow a load to observe any value",
         "liveness is proved as: whenever a thread is parked some other thread can step (no deadlock, no lost wake-up); 'every lock() eventually returns' additionally needs a fair scheduler and is not proved (barging starvation is inherent to this lock)",
     ]
-    table = sync_extract.generate()
-    cfg = cfg_from_table(table)
-    ctx.extra["extracted_cfg"] = cfg
-    ok = C.lean_prove(ctx, "TinyVerif.Props.C01", drivers=["drv_c01"])
-    ctx.trusted.append("checks/sync_extract.py (translator of atomic call sites; cross-checked each run against the orderings/operands the running code actually passes to the shimmed atomics)")
-    # the exploration runs on a debug build (overflow checks, debug_assert!) and on a release build (neither)
-    for release in (False, True):
-        exe, err = C.cargo_build(ctx, "c01", release=release)
-        if exe is None:
-            ctx.broken.append({"harness_build_failed": err})
-            ctx.violation({"kind": "harness-build-failed"}, {"error": err}, no_input=True)
-            return
-        n = (6000 if ctx.tier == "quick" else 120000) // (3 if release else 1)
-        cases = gen_cases(ctx, which, n)
-        # directed cases that force parking: a starved holder with many contenders
-        for k in range(60 if ctx.tier == "quick" else 600):
-            cases.append("mutex %d 12000 %d %d 0 %d : l2 l1 | l1 l0 | l1 | t0 l1" % (1000 + k, [0, 50, 90][k % 3], [0, 5][k % 2], 1 + k % 15))
-        chunks = [cases[i::16] for i in range(16)]
-        import concurrent.futures as cf
-        outs = {}
-
-        def work(chunk):
-            rc, o, e = C.run_filter([exe], chunk, timeout=3000)
-            return chunk, o, rc
-
-        with cf.ThreadPoolExecutor(16) as ex:
-            for chunk, o, rc in ex.map(work, chunks):
-                if len(o) != len(chunk):
-                    if o and o[-1].startswith("livelock"):
-                        idx = len(o) - 1
-                        ctx.violation({"kind": "livelock"},
-                                      {"case": chunk[idx], "verdict": "livelock: a thread never returned from lock()/unlock() although every holder released (threads free-running for 20 s)",
-                                       "trace_tail": o[-1].split(" :: ", 1)[-1].split(" ; ")[-60:], "how_to_replay": "echo '%s' | %s" % (chunk[idx], exe)})
-                        o = o[:-1]
-                    else:
-                        idx = len(o)
-                        ctx.violation({"kind": "harness-died", "case": chunk[idx] if idx < len(chunk) else "?"},
-                                      {"case": chunk[idx] if idx < len(chunk) else None, "rc": rc})
-                for c, l in zip(chunk, o):
-                    outs[c] = l
-        ctx.evaluations += len(outs)
-        drv_lines, drv_cases = [], []
-        traces = []
-        for c in cases:
-            if c not in outs:
-                continue
-            verdict, viol, lost, trace = split_out(outs[c])
-            ctx.hist("verdicts", verdict)
-            ctx.count(shape_of(trace))
-            traces.append(trace)
-            progs = c.split(" : ", 1)[1]
-            if viol != "-" or lost or verdict == "deadlock":
-                kind = "panic" if "panic" in viol else "exclusion" if "exclusion" in viol else ("try_lock" if "try:" in viol else ("deadlock" if verdict == "deadlock" else "lost-update"))
-                ctx.violation({"kind": kind}, {"case": c, "verdict": verdict, "oracle": viol, "lost_update": lost,
-                                                "trace": trace.split(" ; ")[-60:],
-                                                "how_to_replay": "echo '%s' | %s" % (c, exe)})
-            drv_lines.append("mutex %s : %s :: %s" % (cfg_bits(cfg), progs, trace))
-            drv_cases.append((c, verdict))
-        for c in cases[:3]:
-            if c in outs:
-                ctx.sample({"case": c, "result": outs[c][:400]})
-        # tie C: every implementation trace must be a behaviour of the model
-        rc, mo, err = C.run_filter([C.driver_path("drv_c01")], drv_lines, timeout=3000)
-        if len(mo) != len(drv_lines):
-            ctx.violation({"kind": "driver-failed"}, {"rc": rc, "stderr": err[-400:]}, no_input=True)
-            return
-        rejected, raced = [], []
-        for (c, verdict), line, m in zip(drv_cases, drv_lines, mo):
-            if m.startswith("reject") or m == "bad-op":
-                rejected.append((c, m))
-            elif "raced=true" in m:
-                raced.append((c, m, line))
-            elif verdict == "complete" and "finished=true" not in m:
-                rejected.append((c, "complete run but model not finished: " + m))
-            elif verdict == "deadlock" and not m.startswith("accept-deadlock"):
-                rejected.append((c, m))
-        ctx.extra["traces_validated_against_impl"] = len(drv_lines) - len(rejected)
-        ctx.extra["model_rejections"] = len(rejected)
-        # translator validation: orderings the code passed at run time vs the extracted table
-        obs = observed_orderings(traces)
-        ctx.extra["observed_orderings"] = {k: sorted(v) for k, v in sorted(obs.items())}
-        tb = table["tables"]["mutex"]
-        exp_cas = "%s/%s" % (ORDMAP[tb[1]["ords"][0]], ORDMAP[tb[1]["ords"][1]]) if len(tb) > 1 and len(tb[1]["ords"]) == 2 else "?"
-        if "cas0:0>1" in obs and any(x != exp_cas for x in obs["cas0:0>1"]) and len({t["ords"][0] for t in tb[:3] if t["ords"]}) == 1:
-            ctx.broken.append({"translator_mismatch": {"observed": sorted(obs["cas0:0>1"]), "extracted": exp_cas}})
-            ctx.violation({"kind": "translator-mismatch"}, {"observed": sorted(obs["cas0:0>1"]), "extracted": exp_cas}, no_input=True)
-        for c, m, line in raced[:3]:
-            ctx.violation({"kind": "data-race-in-model"},
-                          {"case": c, "model": m, "note": "with the memory orderings now in the source the release/acquire view model exhibits a race on the guarded data along this schedule of the real code (not observable on x86 hardware)",
-                           "driver_line": line[:3000]})
-        if rejected and not ctx.violations:
-            c, m = rejected[0]
-            ctx.broken.append({"correspondence": "mutex-trace", "first_rejection": {"case": c, "model": m}, "count": len(rejected)})
-            ctx.violation({"kind": "model-rejects-trace"}, {"broken_correspondence": "mutex-trace", "case": c, "model": m, "count": len(rejected),
-                                                             "note": "no oracle (exclusion, try_lock, deadlock, lost update) failed on any explored schedule"}, no_input=True)
-    if not ok and not ctx.violations:
-        ctx.violation({"kind": "proof-broken"}, {"broken": ctx.broken,
-                                                 "note": "Props/C01.lean no longer checks against the regenerated Gen/SyncSites.lean (gen_shape_ok / gen_cfg_good) and no explored schedule fails an oracle"}, no_input=True)
+    run_sync(ctx, {
+        "which": "mutex", "what": "lock()/unlock()", "cases": mutex_cases, "trykind": "try_lock", "tail": 60,
+        "spin_key": "mutex_spin", "infer_spin": infer_spin_mutex, "obs_module": "MutexObs", "table": "mutex",
+        "lock_locs": ["futex"], "module": "TinyVerif.Props.C01", "driver": "drv_c01", "corr": "mutex-trace",
+    })
